@@ -15,11 +15,15 @@ def run(ctx):
         raise ToolError("vacuity witness not reachable")
     vecs = tlc_expect_ok(tlc("MC_Redaction", "MC_Redaction_emit.cfg", name="redaction_emit", workers=4, timeout=1500, coverage=False), "emit").printed("VEC")
     valid = [v for v in vecs if v["verdict"] == "valid"]
-    refused = [v for v in vecs if v["verdict"] != "valid"]
+    refused = [v for v in vecs if v["verdict"] == "refused"]
+    rogue = [v for v in vecs if v["verdict"] == "invalid"]      # forbidden redactions signed by a generator that does not refuse (hook H6)
+    if len(rogue) < 100:
+        raise ToolError("vector export too small: %d rogue histories" % len(rogue))
+    ctx.rng.shuffle(rogue)
     if len(valid) < 30 or len(refused) < 1000:
         raise ToolError("vector export too small: %d valid, %d refused" % (len(valid), len(refused)))
     ctx.rng.shuffle(refused)
-    sample = valid + (refused[:160] if ctx.quick else refused)
+    sample = valid + (refused[:160] if ctx.quick else refused) + (rogue[:120] if ctx.quick else rogue)
     if not ctx.quick:
         sample = sample + valid + valid     # valid chains again with other ids (other formats)
     for i, v in enumerate(sample):
@@ -28,6 +32,7 @@ def run(ctx):
     outs = [json.loads(l) for l in p.stdout.splitlines() if l.strip()]
     if len(outs) != len(sample):
         raise ToolError("replay returned %d results for %d vectors" % (len(outs), len(sample)))
+    forced_signed = 0
     for v, o in zip(sample, outs):
         lv = o["levels"]
         case = {"requests": v["requests"], "fmt": o["fmt"], "levels": [{"j": l["j"], "sign": l["sign"], "state": (l.get("read") or {}).get("state"), "failures": (l.get("read") or {}).get("failures"), "requested": l.get("requested")} for l in lv], "present": o["present"]}
@@ -67,10 +72,19 @@ def run(ctx):
                 ps = o["posthoc"]["read"].get("state")
                 if ps in ("Valid", "Trusted"):
                     ctx.violation("removal-without-redaction-valid", "overwriting the data of ingredient assertion %s without a redaction entry is reported %s" % (o["posthoc"]["target"], ps), case)
+        elif v["verdict"] == "invalid":
+            if len(lv) == len(v["requests"]) and signed:
+                forced_signed += 1
+                if state in ("Valid", "Trusted"):
+                    kinds = sorted({t["kind"] for t in v["requests"][-1] if t["kind"] not in ("c1", "c2")})
+                    ctx.violation("forbidden-redaction-validates:%s:%s" % (",".join(kinds), o["fmt"]), "a manifest that redacts %s of an ingredient manifest (signed by a generator that does not refuse) is reported %s" % (last.get("requested"), state), case)
         else:
             if len(lv) == len(v["requests"]) and signed and state in ("Valid", "Trusted"):
                 bad = [t for j, req in enumerate(v["requests"], start=1) for t in req if t["kind"] not in ("c1", "c2") or t["m"] == j]
                 ctx.violation("forbidden-redaction-valid:%s" % ",".join(sorted({("own" if any(t["m"] == j for j, rq in enumerate(v["requests"], start=1) if t in rq) else "ingredient") + ":" + t["kind"] for t in bad})), "a chain redacting %s is reported %s" % (bad, state), case)
+    if forced_signed < 20:
+        raise ToolError("vacuity: only %d forced forbidden redactions could be signed" % forced_signed)
+    ctx.cov["forced_forbidden_signed"] = forced_signed
     ctx.cov["traces_validated_against_impl"] += len(sample)
     ctx.cov["evaluations"] = sum(len(o["levels"]) for o in outs)
     ctx.cov["distinct_nontrivial"] = len(valid)
